@@ -183,6 +183,30 @@ def replay_c17(state):
         obs["copy"] = dict(self=bool(el == el), ab=bool(el == el2), ba=bool(el2 == el))
     except Exception as exc:  # noqa
         obs["copy"] = dict(self=False, ab=False, ba=False, err=repr(exc)[:100])
+    # two independently built copies of a DSL-only shape (an explicit required list next to a
+    # required-flagged property that is not in it); ONE of them is serialized (JSON and Python);
+    # they must still be equal afterwards
+    try:
+        import copy as _copy
+        from statham.serializers import serialize_json, serialize_python
+        rec = drive.project_element(el)
+        props = rec["kw"].get("properties") if isinstance(rec["kw"], dict) else None
+        flagged = [p["source"] for p in (props or []) if p["required"]]
+        if flagged:
+            var = _copy.deepcopy(rec)
+            var["kw"]["required"] = [n for n in var["kw"].get("required", []) if n != flagged[-1]] or ["zz"]
+            x, y = drive.build_element(var), drive.build_element(var)
+            before = bool(x == y) and bool(y == x)
+            serialize_json(x)
+            try:
+                serialize_python(x)
+            except Exception:  # noqa
+                pass
+            obs["copy_used"] = dict(self=bool(x == x), ab=before and bool(x == y), ba=before and bool(y == x))
+    except ValueError:
+        pass
+    except Exception as exc:  # noqa
+        obs["copy_used"] = dict(self=False, ab=False, ba=False, err=repr(exc)[:100])
     kinds_a = None
     ja = None
     for tag, d in _removals(sj) + _literal_variants(sj):
@@ -764,6 +788,10 @@ def run(pid, tier, replay_file=None):
             checked += 1
             add_event(si, ("copy", None), '[id |-> @ID@, p |-> "C17c", self |-> %s, copyab |-> %s, copyba |-> %s]'
                       % (B(c["self"]), B(c["ab"]), B(c["ba"])))
+            if ob.get("copy_used"):
+                cu = ob["copy_used"]
+                add_event(si, ("copy-used", None), '[id |-> @ID@, p |-> "C17c", self |-> %s, copyab |-> %s, copyba |-> %s]'
+                          % (B(cu["self"]), B(cu["ab"]), B(cu["ba"])))
             for pi, pr in enumerate(ob["pairs"]):
                 if "err" in pr:
                     rep.violation(("C17", "eq-raises", pr["tag"].split(":")[0]),
@@ -851,6 +879,11 @@ def run(pid, tier, replay_file=None):
                 if kind == "copy":
                     rep.violation(("C17", clause), f"independently parsed copies of {sjson(st)} are not equal: {ob['copy']}",
                                   dict(state=st, observed=ob["copy"]))
+                elif kind == "copy-used":
+                    rep.violation(("C17", clause, "after-serialization"),
+                                  f"two independently built copies (explicit required list + required property) of the element of "
+                                  f"{sjson(st)} are no longer equal after ONE of them was serialized: {ob['copy_used']}",
+                                  dict(state=st, observed=ob["copy_used"]))
                 else:
                     pr = ob["pairs"][idx]
                     cause = pr["tag"].split(":")[0]
